@@ -376,7 +376,7 @@ var clientSays = []string{
 func receiverBody(depth int) nd.Body {
 	return func(c *nd.Ctx) nd.Result {
 		mechs := serverLists[c.Choose(len(serverLists), "server-mechanisms")]
-		cbMode := c.Choose(3, "callback") // 0 checks the password, 1 accepts all, 2 rejects all
+		cbMode := c.Choose(4, "callback") // 0 checks the password, 1 accepts all, 2 rejects all, 3 no callback configured (nobody can accept anything)
 		type cbCall struct {
 			user, pass string
 			verdict    bool
@@ -462,6 +462,9 @@ func receiverBody(depth int) nd.Body {
 		var err error
 		pn := nd.Catch(func() {
 			s, err = xmpp.ReceiveSession(context.Background(), conn, xmpp.Secure, xmpp.NewNegotiator(func(*xmpp.Session, *xmpp.StreamConfig) xmpp.StreamConfig {
+				if cbMode == 3 {
+					return xmpp.StreamConfig{Features: []xmpp.StreamFeature{xmpp.SASLServer(nil, mechs...)}}
+				}
 				return xmpp.StreamConfig{Features: []xmpp.StreamFeature{xmpp.SASLServer(perm, mechs...)}}
 			}))
 		})
@@ -517,7 +520,7 @@ func init() {
 	drv.Register(&drv.Prop{
 		ID:    "C03",
 		Level: "model_checking",
-		Rule: "initiator: 6 client mechanism lists x 10 advertised lists x every peer script of up to D steps over 17 answers (challenge/success carrying the correct next SCRAM message computed by a reference RFC 5802 server from what the client actually sent, empty, '=', garbage, invalid base64; failure; unknown SASL element; foreign element; text; EOF), the client then being allowed to restart the stream; receiver: 2 mechanism lists x 3 permission-callback behaviours x every client script of up to D steps over 19 messages (auth with valid/wrong/malformed/empty/'='/bad-base64/four-part payloads, unoffered/unknown/missing mechanism, SCRAM first message, response before/after auth, abort, failure, junk). " +
+		Rule: "initiator: 6 client mechanism lists x 10 advertised lists x every peer script of up to D steps over 17 answers (challenge/success carrying the correct next SCRAM message computed by a reference RFC 5802 server from what the client actually sent, empty, '=', garbage, invalid base64; failure; unknown SASL element; foreign element; text; EOF), the client then being allowed to restart the stream; receiver: 2 mechanism lists x 4 permission-callback behaviours (checks the password, accepts all, rejects all, none configured) x every client script of up to D steps over 19 messages (auth with valid/wrong/malformed/empty/'='/bad-base64/four-part payloads, unoffered/unknown/missing mechanism, SCRAM first message, response before/after auth, abort, failure, junk). " +
 			"Oracle (only-if): Authn set => mechanism offered by both sides, mechanism completed per the reference, success signalled by the receiver (initiator) / permission callback asked and accepted (receiver). Non-trivial = every distinct script.",
 		Assumptions: []string{"only-if direction: a success the client rejects is not a violation", "server-side SCRAM cannot complete in this code base (no salted credential source is wired) and -PLUS needs a TLS connection state: receiver configurations are PLAIN (+ SCRAM-SHA-1 offered but unable to finish); a 'not implemented' panic inside mellium.im/sasl is recorded as an outcome, not explored", "PBKDF2 runs at the library's iteration count 4096",
 			"mellium.im/sasl v0.3.2 hangs (infinite loop in the SCRAM client's parameter parser) on an empty or attribute-less payload received while waiting for the server-first message; those executions are skipped and counted under skipped_out_of_domain"},
